@@ -925,11 +925,25 @@ def c10(tier, seed):
         if '"err":"panic"' in ln or '"err": "panic"' in ln:
             npan.append(json.loads(ln)["s"])
     os.remove(nd)
+    # ... and the hfs build's parser (another function) on edits of hfs names
+    rc, out = harness(["names", "--names", name_table_hfs(), "--extra", name_table_hfs(), "--seed", str(seed + 3),
+                       "--seeds", "40" if tier == "quick" else "400", "--random", "10000" if tier == "quick" else "300000",
+                       "--out", nd, "--skip-language"], hfs=True)
+    nstr += json.loads(out.strip().splitlines()[-1])["strings"]
+    for ln in open(nd):
+        if '"err":"panic"' in ln or '"err": "panic"' in ln:
+            npan.append(json.loads(ln)["s"])
+    os.remove(nd)
     # (b) random protocol-agnostic driver (contents, lengths 0..66000, key lengths 0..200, any call at any time)
     resf = os.path.join(WORK, "c10-fuzz.json")
     rc, out = harness(["fuzz", "--names", names, "--seed", str(seed), "--sessions", str(sessions), "--threads", "14",
                        "--result", resf, "--replay-dir", REPLAYS], timeout=7200)
     fz = json.load(open(resf))
+    rc, out = harness(["fuzz", "--names", name_table_hfs(), "--seed", str(seed + 5), "--sessions", str(max(sessions // 8, 200)),
+                       "--threads", "14", "--result", resf, "--replay-dir", REPLAYS], timeout=7200, hfs=True)
+    fzh = json.load(open(resf))
+    fz = dict(sessions=fz["sessions"] + fzh["sessions"], calls=fz["calls"] + fzh["calls"],
+              violations=fz["violations"] + fzh["violations"])
     res = merge("exploration", [t1, t2, t3, t4, t5, t6], [r1, r2, r3, r4, r5, r6],
                 "the model is total (every call in every state has a defined Ok/Err outcome), so a panic, abort or stall is an "
                 "event no action explains. Two sources of cases: (a) TLC-derived boundaries replayed on the code under "
